@@ -34,6 +34,8 @@ FIXED = [
     ("C12", "21e45fe", "glob/LIKE translation left + { } | and backslash unescaped (`name = 'a+b*'` matched aab.txt, not a+b.txt; `{` made the pattern invalid) and LIKE treated `?` as an optional-character wildcard", ["glob-metachars", "like-metachars"]),
     ("C12", "5c12388", "the compiled-pattern cache was keyed by pattern text only: the same text under `=` and `like`/`=~` in one query reused the first compilation", ["cache-shared-across-operators"]),
     ("C14", "de3a680", "size literals with the documented units t, tb, tib were not parsed (`size = 1t` compared with 0)", ["t-units", "tb-units", "tib-fraction"]),
+    ("C04", "8580ef9", "is_char was true for symbolic links and block devices (`mode & S_IFCHR == S_IFCHR` without the S_IFMT mask): two type booleans true at once", ["symlink-and-block-are-not-char"]),
+    ("C04", "0e69e47", "for archive members is_file/is_dir/is_symlink came from the member name only: a member stored with a FIFO, device, socket or symlink mode was also reported as a regular file", []),
 ]
 
 OPEN = [
